@@ -418,7 +418,8 @@ def _run(chk, repo, host, meta, ws_names, replay):
         if d["coupling"] == "unexplained":
             key = "c35-build-fails:unexplained:%s" % rec["label"]
         else:
-            key = "c35-build-fails:%s:%s" % (d["coupling"], d["dom"])
+            # class of the failure: which coupling is broken, in which domain, and which side has the feature off
+            key = "c35-build-fails:%s:%s:%s-off" % (d["coupling"], d["dom"], d["lacks"])
         chk.report(key, {"clause": "the configuration builds", "selection": rec["label"], "cargo_error": d["err"],
                          "explained_by": d["coupling"], "domain": d["dom"], "side_without_feature": d["lacks"]},
                    {"selection": rec["sel"], "observation": rec})
